@@ -57,6 +57,7 @@ type Exec struct {
 	pendingTop []string
 	freshOnly  map[string]*Sort
 	resTypes   map[string][]types.Type
+	used       map[string]bool // keys of the verified (not assumed) callee contracts applied while executing this function
 }
 
 type execAbort struct{ msg string }
@@ -1027,6 +1028,8 @@ func (x *Exec) mapGet(st *State, mt *types.Map, m *Term, k Value) (Value, *Term)
 		ts[i] = Ite(present, Select(Select(va, m), kt), zeroTerm(c))
 	}
 	v, _ := fromComps(mt.Elem(), ts)
+	// a value read from a map is a value of the element type (what was stored, or the zero value)
+	st.assumeAll(typeFacts(mt.Elem(), v, st.heaptop))
 	return v, present
 }
 
